@@ -5,7 +5,8 @@
    silent steps inferred by TLC (depth-first queue; acceptance = the whole trace was consumed on some path).
    Grain-of-atomicity resolutions are named actions (TryDMissLate, TryRMissLate, stutters).                          *)
 EXTENDS Engine, Json
-CONSTANT TraceFile, CustomFile
+CONSTANT TraceFile, CustomFile,
+         SilentCancel      \* TRUE for runs started by a loop step: their caller (the loop) cancels without a recorded event
 Tr == JsonDeserialize(TraceFile)
 \* the workflow of a generated case (Family = "custom"): cfg line  Custom <- CustomDef
 CustomDef == JsonDeserialize(CustomFile)
@@ -158,6 +159,7 @@ Silent == /\ l' = l
                                     \/ (PostDeploy(s) /\ conn'[s] = "closed") \/ (ReadSchema(s) /\ exec'[s] = exec[s])
                                     \/ (AwaitRes(s) /\ resQ'[s] = resQ[s]) \/ CancelSend(s) \/ (AwaitResCancel(s) /\ resQ'[s] = resQ[s])
              \/ Unblock /\ OtherEv
+             \/ SilentCancel /\ CallerCancel /\ OtherEv
 
 TNext == \/ T_Set \/ T_Read \/ T_HB_K \/ T_HB_S \/ T_HB_F \/ T_Prov \/ T_Err \/ T_Out \/ T_HE \/ T_Det \/ T_Slot \/ T_Deploy \/ T_Conn
          \/ T_Exec \/ T_Res \/ T_Exit \/ T_Sig \/ T_Ctx \/ T_DetWake \/ T_DetCtx \/ T_Cancel \/ T_Select \/ T_TermStep \/ T_TermRet \/ T_Return
